@@ -56,6 +56,8 @@ def fixed_cases(tier):
     # name-table matrix (total name bytes on / next to 2^8 and 2^16) and run-length matrix, match and table
     for spec in C.name_table_specs():
         out.append({"spec": spec, "base": S.simple_config([]), "mods": [0, 1], "seed": 2, "all_idxs": len(spec["variants"]) <= 100})
+    for spec in C.structured_specs(("i8", "u8", "i64")):
+        out.append({"spec": spec, "base": S.simple_config([]), "mods": [1, 6], "seed": 5, "all_idxs": True})
     for spec in C.tied_run_specs():
         out.append({"spec": spec, "base": S.simple_config([]), "mods": [1, 6, 7], "seed": 4, "all_idxs": True})
     for spec in C.run_length_specs({(64, 64), (65, 64), (1, 64), (128, 128), (256, 63), (257, 65)}):
